@@ -93,7 +93,9 @@ def run(prop, tier, replay):
     else:
         mcs = [("mask", MC_MASK.format(nf=2, nr=1, depth=3)), ("mask2", MC_MASK.format(nf=1, nr=2, depth=4)),
                ("expr", MC_EXPR.format(nf=1, nr=2, depth=4)), ("expr2", MC_EXPR.format(nf=2, nr=1, depth=3))]
-        runs = [dict(nf=2, nr=1, embed=e, section=sec, leaves=3) for e in ("dense", "wide")
+        # (expression trees over 3 leaves on the 2-fragment universe produce 2.6M events per embedding, whose validation
+        #  alone takes more than an hour; that universe keeps 2 leaves, the 2-row universe below has 3)
+        runs = [dict(nf=2, nr=1, embed=e, section=sec, leaves=2 if sec == "ev" else 3) for e in ("dense", "wide")
                 for sec in ("tm1", "tm2", "m1", "m2", "ev")]
         runs += [dict(nf=1, nr=2, embed=e, section=sec, leaves=3) for e in ("dense", "wide")
                  for sec in ("tm1", "tm2", "m1", "m2", "ev")]
